@@ -206,6 +206,13 @@ namespace
 	    parts.push_back('*');
 	    break;
 
+	  case '^':
+	    // "[^]" is not a valid bracket expression, so '^' is
+	    // matched with an escape instead.
+	    parts.push_back('\\');
+	    parts.push_back('^');
+	    break;
+
 	  case '.':
 	  default:
 	    if (up(w) != down(w))
